@@ -59,19 +59,19 @@ PROPS = {
         ],
     ),
     'C03': dict(
-        verus=['tile_bbox', 'filters', 'overlay', 'converter', 'pmtiles_reader', 'versatiles_reader', 'pyramid_real', 'mbtiles_pyramid'],
+        verus=['tile_bbox', 'filters', 'overlay', 'converter', 'pmtiles_reader', 'versatiles_reader', 'pyramid_real', 'mbtiles_pyramid', 'block_index_pyramid'],
         kani=['pyramid', 'pmtiles_runs'],
         not_decided=[
             'MBTiles: SQL snippets outside the translation table of unit mbtiles_pyramid (ANCHOR-LOST, exit 2); the zoom-gap behaviour (NULL -> Err)', 'tar/directory file-name parsing that feeds include_coord',
         ],
     ),
     'C01': dict(
-        verus=['pmtiles_dir', 'pmtiles_dir_dec', 'varint_pbf', 'tile_bbox', 'tile_index', 'block_index', 'mbtiles_pyramid', 'versatiles_stream', 'versatiles_writer', 'pmtiles_writer'],
+        verus=['pmtiles_dir', 'pmtiles_dir_dec', 'varint_pbf', 'tile_bbox', 'tile_index', 'block_index', 'block_index_pyramid', 'mbtiles_pyramid', 'versatiles_stream', 'versatiles_writer', 'pmtiles_writer'],
         kani=['pmtiles_codec', 'versatiles_codec', 'tile_bbox', 'tile_bbox_iter'],
         not_decided=[
             'end-to-end write-then-read through async I/O: write_block (incl. the de-duplication callback) and the section layout of PMTilesWriter::write_to_writer are under contract; the versatiles header and meta writes, completeness of write_blocks (every non-empty block is listed) and of the PMTiles entry list (every streamed tile has an entry) are not; the composition writer -> file -> reader is not stated as one theorem',
             'MBTiles (SQL), tar and directory (file names), getters.rs dispatch',
-            'BlockIndex::as_blob / get_bbox_pyramid (HashMap iteration); the outer size search of as_directory (float loop)',
+            'the outer size search of as_directory (float loop); BlockIndex: as_blob and from_blob are each under contract (units block_index, block_index_pyramid) but the composition from_blob(as_blob(i)) = i is not stated as a lemma',
         ],
     ),
     'C10': dict(
@@ -96,7 +96,7 @@ PROPS = {
         ],
     ),
     'C16': dict(
-        verus=['pmtiles_dir', 'pmtiles_dir_dec', 'varint_pbf', 'pmtiles_reader', 'versatiles_reader', 'tile_index', 'block_index', 'mbtiles_pyramid'],
+        verus=['pmtiles_dir', 'pmtiles_dir_dec', 'varint_pbf', 'pmtiles_reader', 'versatiles_reader', 'tile_index', 'block_index', 'block_index_pyramid', 'mbtiles_pyramid'],
         kani=['pmtiles_codec', 'versatiles_codec', 'pmtiles_runs'],
         not_decided=[
             'MBTiles zoom gaps (SQL), ./-prefixed tar members (string code)',
